@@ -267,6 +267,7 @@ func idpCoq(a c.Answer) string {
 type authWorld struct {
 	mux       *auth.AuthenticatorMux
 	providers map[string]providers.Provider
+	handler   http.Handler // the production chain around mux
 	host      string
 	secret    string
 	cookie    aead.Cipher
@@ -279,39 +280,89 @@ func mustURL(s string) *url.URL {
 	return u
 }
 
-func buildAuth(f *idp, statsdPort int, host, secret string) *authWorld {
-	cfg := auth.DefaultAuthConfig()
-	cfg.ServerConfig.Host = host
-	cfg.ServerConfig.Scheme = "http"
-	cfg.ClientConfigs = map[string]auth.ClientConfig{"proxy": {ID: clientID, Secret: secret}}
-	cfg.SessionConfig.Key = base64.StdEncoding.EncodeToString(authCodeSecret)
-	cfg.SessionConfig.SessionLifetimeTTL = 3900 * time.Second
-	cfg.SessionConfig.CookieConfig.Name = authCookie
-	cfg.SessionConfig.CookieConfig.Secret = base64.StdEncoding.EncodeToString(authCookieSecret)
-	cfg.AuthorizeConfig.ProxyConfig.Domains = []string{rootDomain}
-	cfg.AuthorizeConfig.EmailConfig.Domains = []string{"*"}
-	cfg.MetricsConfig.StatsdConfig.Host = "127.0.0.1"
-	cfg.MetricsConfig.StatsdConfig.Port = statsdPort
-	cfg.LoggingConfig.Enable = false
-	gc := auth.GroupCacheConfig{CacheIntervalConfig: auth.CacheIntervalConfig{Provider: 10 * time.Minute, Refresh: 10 * time.Minute}}
-	cfg.ProviderConfigs = map[string]auth.ProviderConfig{
-		"g": {ProviderType: "google", ProviderSlug: "google", ClientConfig: auth.ClientConfig{ID: "gid", Secret: "gsecret"}, GroupCacheConfig: gc},
-		"o": {ProviderType: "okta", ProviderSlug: "okta", ClientConfig: auth.ClientConfig{ID: "oid", Secret: "osecret"},
-			OktaProviderConfig: auth.OktaProviderConfig{OrgURL: "okta.invalid"}, GroupCacheConfig: gc},
+// broken reports that the code under test no longer supports what the driver needs from it (a service
+// that does not boot from its configuration, a provider that is no longer wrapped ...). That is a broken
+// correspondence, not trouble in the harness's own infrastructure: exit 1 (check.py: VIOLATION ...
+// no-failing-input-found), never common.Must's exit 3.
+func broken(format string, args ...interface{}) {
+	fmt.Fprintf(os.Stderr, "correspondence broken: "+format+"\n", args...)
+	os.Exit(1)
+}
+
+// buildAuth boots sso-auth. With fromEnv the configuration comes from the process environment through
+// auth.LoadConfig, exactly as cmd/sso-auth/main.go does; otherwise the struct is filled in directly.
+// Either way: Validate, NewStatsdClient, NewAuthenticatorMux, and the production handler chain
+// (http.TimeoutHandler inside auth.NewLoggingHandler).
+func buildAuth(f *idp, statsdPort int, host, secret string, fromEnv bool) *authWorld {
+	var cfg auth.Configuration
+	if fromEnv {
+		env := map[string]string{
+			"SERVER_HOST": host, "SERVER_SCHEME": "http",
+			"CLIENT_PROXY_ID": clientID, "CLIENT_PROXY_SECRET": secret,
+			"SESSION_KEY":             base64.StdEncoding.EncodeToString(authCodeSecret),
+			"SESSION_LIFETIME":        "65m",
+			"SESSION_COOKIE_NAME":     authCookie,
+			"SESSION_COOKIE_SECRET":   base64.StdEncoding.EncodeToString(authCookieSecret),
+			"AUTHORIZE_PROXY_DOMAINS": rootDomain, "AUTHORIZE_EMAIL_DOMAINS": "*",
+			"METRICS_STATSD_HOST": "127.0.0.1", "METRICS_STATSD_PORT": strconv.Itoa(statsdPort),
+			"LOGGING_ENABLE":  "false",
+			"PROVIDER_G_TYPE": "google", "PROVIDER_G_SLUG": "google", "PROVIDER_G_CLIENT_ID": "gid", "PROVIDER_G_CLIENT_SECRET": "gsecret",
+			"PROVIDER_G_GROUPCACHE_INTERVAL_PROVIDER": "10m", "PROVIDER_G_GROUPCACHE_INTERVAL_REFRESH": "10m",
+			"PROVIDER_O_TYPE": "okta", "PROVIDER_O_SLUG": "okta", "PROVIDER_O_CLIENT_ID": "oid", "PROVIDER_O_CLIENT_SECRET": "osecret",
+			"PROVIDER_O_OKTA_URL":                     "okta.invalid",
+			"PROVIDER_O_GROUPCACHE_INTERVAL_PROVIDER": "10m", "PROVIDER_O_GROUPCACHE_INTERVAL_REFRESH": "10m",
+		}
+		for k, v := range env {
+			os.Setenv(k, v)
+		}
+		var err error
+		cfg, err = auth.LoadConfig()
+		for k := range env {
+			os.Unsetenv(k)
+		}
+		if err != nil {
+			broken("auth.LoadConfig: %v", err)
+		}
+	} else {
+		cfg = auth.DefaultAuthConfig()
+		cfg.ServerConfig.Host = host
+		cfg.ServerConfig.Scheme = "http"
+		cfg.ClientConfigs = map[string]auth.ClientConfig{"proxy": {ID: clientID, Secret: secret}}
+		cfg.SessionConfig.Key = base64.StdEncoding.EncodeToString(authCodeSecret)
+		cfg.SessionConfig.SessionLifetimeTTL = 3900 * time.Second
+		cfg.SessionConfig.CookieConfig.Name = authCookie
+		cfg.SessionConfig.CookieConfig.Secret = base64.StdEncoding.EncodeToString(authCookieSecret)
+		cfg.AuthorizeConfig.ProxyConfig.Domains = []string{rootDomain}
+		cfg.AuthorizeConfig.EmailConfig.Domains = []string{"*"}
+		cfg.MetricsConfig.StatsdConfig.Host = "127.0.0.1"
+		cfg.MetricsConfig.StatsdConfig.Port = statsdPort
+		cfg.LoggingConfig.Enable = false
+		gc := auth.GroupCacheConfig{CacheIntervalConfig: auth.CacheIntervalConfig{Provider: 10 * time.Minute, Refresh: 10 * time.Minute}}
+		cfg.ProviderConfigs = map[string]auth.ProviderConfig{
+			"g": {ProviderType: "google", ProviderSlug: "google", ClientConfig: auth.ClientConfig{ID: "gid", Secret: "gsecret"}, GroupCacheConfig: gc},
+			"o": {ProviderType: "okta", ProviderSlug: "okta", ClientConfig: auth.ClientConfig{ID: "oid", Secret: "osecret"},
+				OktaProviderConfig: auth.OktaProviderConfig{OrgURL: "okta.invalid"}, GroupCacheConfig: gc},
+		}
 	}
-	c.Must(cfg.Validate())
+	if err := cfg.Validate(); err != nil {
+		broken("auth configuration (fromEnv=%v) does not validate: %v", fromEnv, err)
+	}
 	sc, err := auth.NewStatsdClient(cfg.MetricsConfig.StatsdConfig.Host, cfg.MetricsConfig.StatsdConfig.Port)
 	c.Must(err)
 	m, err := auth.NewAuthenticatorMux(cfg, sc)
-	c.Must(err)
+	if err != nil {
+		broken("auth.NewAuthenticatorMux: %v", err)
+	}
 	ps := auth.VerifC19Providers(m)
 	g, o := ps["google"], ps["okta"]
 	if g == nil || o == nil {
-		c.Must(fmt.Errorf("providers not built"))
+		broken("NewAuthenticatorMux did not build the google and okta providers")
 	}
 	g.Data().RevokeURL = mustURL(f.srv.URL + "/google/revoke")
 	o.Data().RevokeURL = mustURL(f.srv.URL + "/okta/revoke")
 	w := &authWorld{mux: m, host: host, secret: secret, providers: ps}
+	// cmd/sso-auth/main.go:48-57
+	w.handler = auth.NewLoggingHandler(io.Discard, http.TimeoutHandler(m, cfg.ServerConfig.TimeoutConfig.Request, ""), cfg.LoggingConfig.Enable, sc)
 	w.cookie, err = aead.NewMiscreantCipher(authCookieSecret)
 	c.Must(err)
 	w.foreign, err = aead.NewMiscreantCipher(foreignSecret)
@@ -341,7 +392,9 @@ func buildProxy(fa *c.FakeAuth, dir, slug string, secure bool) *proxyWorld {
 	yaml += fmt.Sprintf("- service: rx\n  default:\n    from: %q\n    to: %s\n    type: rewrite\n    options:\n      allowed_email_domains: [\"*\"]\n", rxFrom, b.HostPort())
 	w, err := c.BuildProxy(c.ProxyOpts{YAML: yaml, DefaultSlug: slug, CookieSecure: secure, CookieName: proxyCookie,
 		Lifetime: cfgL * time.Second, Valid: cfgV * time.Second, Grace: cfgG * time.Second, Dir: dir}, fa)
-	c.Must(err)
+	if err != nil {
+		broken("sso-proxy does not boot from its configuration (SetUpstreamConfigs / proxy.New): %v", err)
+	}
 	return &proxyWorld{W: w, B: b, slug: slug, secure: secure, base: fa.Srv.URL + "/" + slug + "/sign_out"}
 }
 
@@ -555,11 +608,35 @@ func (h *history) proxyStep(pw *proxyWorld, host string, originForm bool, method
 	switch cookieKind {
 	case 1:
 		raw += "Cookie: " + proxyCookie + "=bm90IGEgc2Vzc2lvbg\r\n"
-	case 2:
+	case 2, 3, 4, 5, 6, 7:
+		// a genuine session of this user on this host, in every state a browser tab can be in when the
+		// user clicks "sign out": fresh / validation due / refresh due / both due / lifetime over / other upstream
+		off := map[int][3]time.Duration{
+			2: {5 * time.Minute, time.Hour, 24 * time.Hour},
+			3: {-2 * time.Minute, time.Hour, 24 * time.Hour},
+			4: {5 * time.Minute, -2 * time.Minute, 24 * time.Hour},
+			5: {-10 * time.Minute, -2 * time.Minute, 24 * time.Hour},
+			6: {-10 * time.Minute, -2 * time.Minute, -time.Minute},
+			7: {-2 * time.Minute, time.Hour, 24 * time.Hour},
+		}[cookieKind]
 		s := &sessions.SessionState{ProviderSlug: pw.slug, ProviderType: "sso", Email: "alice@example.com", AccessToken: "at", RefreshToken: "rt",
-			RefreshDeadline: time.Now().Add(time.Hour), LifetimeDeadline: time.Now().Add(24 * time.Hour), ValidDeadline: time.Now().Add(5 * time.Minute), AuthorizedUpstream: host}
+			ValidDeadline: time.Now().Add(off[0]), RefreshDeadline: time.Now().Add(off[1]), LifetimeDeadline: time.Now().Add(off[2]), AuthorizedUpstream: host}
+		if cookieKind == 7 {
+			s.AuthorizedUpstream = hostIn2
+		}
 		raw += "Cookie: " + proxyCookie + "=" + pw.W.Seal(s) + "\r\n"
 	}
+	// the authenticator's back channel is up and would confirm the session (the proxy's sign-out comes
+	// BEFORE the authenticator's revoke) — or, every fourth time, would deny it
+	back := c.AuthScript{
+		Refresh:  c.Answer{Status: 201, Body: c.JSONBody(map[string]interface{}{"access_token": "at-new", "expires_in": 1800})},
+		Validate: c.Answer{Status: 200, Body: "{}"},
+		Profile:  c.Answer{Status: 200, Body: c.JSONBody(map[string]interface{}{"email": "alice@example.com", "groups": []string{}})},
+	}
+	if len(host)%4 == 3 && cookieKind%2 == 1 {
+		back.Refresh.Status, back.Validate.Status = 401, 401
+	}
+	pw.W.Auth.Set(back)
 	raw += "\r\n" + v.Body
 	req, rerr := http.ReadRequest(bufio.NewReader(strings.NewReader(raw)))
 	if rerr != nil {
@@ -577,6 +654,19 @@ func (h *history) proxyStep(pw *proxyWorld, host string, originForm bool, method
 	rec := pw.W.Do(req)
 	guard(t0)
 	eff, _ := c.CookieEffect(rec, proxyCookie)
+	live := false
+	for _, ck := range rec.Result().Cookies() {
+		if ck.Name == proxyCookie && ck.Value != "" {
+			live = true
+		}
+	}
+	var backCalls []string
+	for _, cl := range pw.W.Auth.TakeCalls() {
+		backCalls = append(backCalls, map[string]string{"refresh": "EpRefresh", "validate": "EpValidate"}[cl])
+		if backCalls[len(backCalls)-1] == "" {
+			backCalls[len(backCalls)-1] = "EpProfile"
+		}
+	}
 	loc := rec.Header().Get("Location")
 	obsBase, params, rawQuery := "", []kv{}, ""
 	if u, err := url.Parse(loc); err == nil {
@@ -605,12 +695,12 @@ func (h *history) proxyStep(pw *proxyWorld, host string, originForm bool, method
 	}
 	h.tab.add(proxySecret, get(params, "redirect_uri")+get(params, "ts"))
 	h.tab.add(proxySecret, get(params, "redirect_uri")+fmt.Sprint(ts))
-	coq := fmt.Sprintf("SProxy {| po_base := %s; po_secret := %s; po_secure := %s; po_origin_form := %s; po_host := %s; po_clock := %s; po_ts := %s; po_status := %s; po_cleared := %s; po_obs_base := %s; po_query := %s; po_params := %s |}",
+	coq := fmt.Sprintf("SProxy {| po_base := %s; po_secret := %s; po_secure := %s; po_origin_form := %s; po_host := %s; po_clock := %s; po_ts := %s; po_status := %s; po_cleared := %s; po_live := %s; po_calls := %s; po_obs_base := %s; po_query := %s; po_params := %s |}",
 		c.Str(pw.base), c.Str(proxySecret), c.Bool(pw.secure), c.Bool(originForm), c.Str(host), c.Z(clock), c.Z(ts),
-		c.Z(int64(rec.Code)), c.Bool(eff == "cleared"), c.Str(obsBase), c.Str(rawQuery), paramsCoq(params))
+		c.Z(int64(rec.Code)), c.Bool(eff == "cleared"), c.Bool(live), c.List(backCalls), c.Str(obsBase), c.Str(rawQuery), paramsCoq(params))
 	h.steps = append(h.steps, coq)
 	h.js = append(h.js, map[string]interface{}{"step": "proxy_sign_out", "slug": pw.slug, "secure": pw.secure, "host": host, "origin_form": originForm,
-		"method": method, "client": v, "status": rec.Code, "cookie": eff, "location": loc})
+		"method": method, "client": v, "request_cookie": cookieKind, "status": rec.Code, "cookie": eff, "live_set_cookie": live, "back_channel_calls": backCalls, "location": loc})
 	return proxyObs{Params: params, TS: ts, OK: rec.Code == 302 && len(params) == 3}
 }
 
@@ -782,7 +872,7 @@ func (h *history) authStep(aw *authWorld, f *idp, rq authReq) authObs {
 	t0 := time.Now()
 	clock := t0.Unix()
 	rec := httptest.NewRecorder()
-	aw.mux.ServeHTTP(rec, pr.req)
+	aw.handler.ServeHTTP(rec, pr.req)
 	guard(t0)
 	revoked := f.take()
 	o, bodyCoq := observeAuth(rec, pr.name)
@@ -813,10 +903,9 @@ var providerCoq = map[string]string{"google": "PGoogle", "okta": "POkta"}
 // mutex). Then the parked calls are released in arrival order and all responses are collected.
 // Returns, per request, whether the cookie was cleared, and the IdP call log.
 func (h *history) concStep(aw *authWorld, f *idp, slug string, rqs []authReq, answers map[string]c.Answer) ([]authObs, []string) {
+	// nil if the provider is no longer wrapped: then nobody can be a duplicate caller and the accounting
+	// below works with finished + parked alone
 	group := providers.VerifC19Group(aw.providers[slug])
-	if group == nil {
-		c.Must(fmt.Errorf("provider %s is not behind the single-flight wrapper", slug))
-	}
 	prs := make([]prepared, len(rqs))
 	for i := range rqs {
 		prs[i] = prepareAuth(aw, &rqs[i])
@@ -834,11 +923,14 @@ func (h *history) concStep(aw *authWorld, f *idp, slug string, rqs []authReq, an
 		wg.Add(1)
 		go func() {
 			defer wg.Done()
-			aw.mux.ServeHTTP(recs[i], prs[i].req)
+			aw.handler.ServeHTTP(recs[i], prs[i].req)
 			atomic.AddInt32(&finished, 1)
 		}()
 		for { // until request i is accounted for
-			_, waiting := singleflight.VerifC19Load(group)
+			waiting := 0
+			if group != nil {
+				_, waiting = singleflight.VerifC19Load(group)
+			}
 			if int(atomic.LoadInt32(&finished))+f.heldCount()+waiting >= i+1 {
 				break
 			}
@@ -1006,7 +1098,7 @@ func (e *env) flow(i int) c.Case {
 	if r.Chance(0.75) {
 		pv = genProxyVar(r)
 	}
-	po := h.proxyStep(pw, host, origin, method, r.Intn(3), pv)
+	po := h.proxyStep(pw, host, origin, method, r.Intn(8), pv)
 	if !po.OK {
 		return h.emit()
 	}
@@ -1451,6 +1543,19 @@ func (e *env) corpus() []func() c.Case {
 			out = append(out, func() c.Case { return e.conc(9100+pattern, pattern, slug, []string{"post", "post", "post"}) })
 		}
 	}
+	// the request's own proxy cookie in every state (validation / refresh due while the back channel would confirm)
+	for pi := range e.proxies {
+		pi := pi
+		out = append(out, func() c.Case {
+			h := newHistory()
+			for kind := 0; kind <= 7; kind++ {
+				h.proxyStep(e.proxies[pi], hostIn1, true, "GET", kind)
+			}
+			h.proxyStep(e.proxies[pi], hostIn2, true, "POST", 3)
+			h.proxyStep(e.proxies[pi], rxHosts[0], true, "GET", 5)
+			return h.emit()
+		})
+	}
 	// client-controlled parts of the proxy's sign-out request: every parameter name x the network-path value
 	for k, name := range redirectParams {
 		k, name := k, name
@@ -1488,6 +1593,73 @@ func (e *env) corpus() []func() c.Case {
 		}
 		return h.emit()
 	})
+	return out
+}
+
+// ---- state carried between requests AND real time: the same signed triple, presented while fresh and
+// again after its five minutes. The code reads time.Now() and the triple must stay byte-identical, so
+// this dimension cannot be realised by re-signing with a shifted timestamp: the triples are signed
+// 291 s in the past at start-up, presented at once (age <= 297 s is checked on the driver's clock after
+// the request, otherwise the item is re-signed and presented again), and presented again when the run
+// is otherwise finished and their age is >= 304 s on the driver's clock before the request.
+
+type agingItem struct {
+	h        *history
+	aw       *authWorld
+	slug     string
+	uri, sig string
+	t        int64
+	sess     asess
+}
+
+const agingAge, agingFresh, agingStale = 291, 297, 304
+
+func (e *env) agingStart() []*agingItem {
+	var items []*agingItem
+	specs := []struct {
+		aw   *authWorld
+		slug string
+		uri  string
+	}{{e.auths[0], "google", "https://app.proxy.test/"}, {e.auths[0], "okta", "https://wiki.proxy.test/"},
+		{e.auths[1], "google", "http://app.proxy.test/"}, {e.auths[0], "google", "//app.proxy.test/"}}
+	for k, sp := range specs {
+		for attempt := 0; ; attempt++ {
+			it := &agingItem{h: newHistory(), aw: sp.aw, slug: sp.slug, uri: sp.uri, t: time.Now().Unix() - agingAge,
+				sess: asess{Email: fmt.Sprintf("aging%d@example.com", k), Access: fmt.Sprintf("at-aging-%d", k), Refresh: fmt.Sprintf("rt-aging-%d", k)}}
+			it.sig = sign(sp.aw.secret, sp.uri, it.t)
+			slowStep = false
+			// the page, the real validSignature directly, and the page once more (the second look is served from
+			// whatever the first one left behind)
+			it.h.authStep(sp.aw, e.f, authReq{Slug: sp.slug, Method: "GET", URI: sp.uri, Sig: it.sig, TS: fmt.Sprint(it.t), CookieKind: "sealed", Sess: it.sess, Out: mkOutcome("ok", sp.slug)})
+			it.h.sigStep(sp.aw.secret, sp.uri, it.sig, fmt.Sprint(it.t))
+			it.h.authStep(sp.aw, e.f, authReq{Slug: sp.slug, Method: "GET", URI: sp.uri, Sig: it.sig, TS: fmt.Sprint(it.t), CookieKind: "none", Sess: it.sess, Out: mkOutcome("ok", sp.slug)})
+			if !slowStep && time.Now().Unix()-it.t <= agingFresh {
+				items = append(items, it)
+				break
+			}
+			if attempt >= 4 {
+				fmt.Fprintln(os.Stderr, "harness error: the machine is too slow to present a signature within its window")
+				os.Exit(3)
+			}
+		}
+	}
+	return items
+}
+
+func (e *env) agingFinish(items []*agingItem) []c.Case {
+	var out []c.Case
+	for _, it := range items {
+		for time.Now().Unix()-it.t < agingStale {
+			time.Sleep(100 * time.Millisecond)
+		}
+		ts := fmt.Sprint(it.t)
+		// the confirmation arrives late: same triple, same cookie
+		it.h.authStep(it.aw, e.f, authReq{Slug: it.slug, Method: "POST", URI: it.uri, Sig: it.sig, TS: ts, InBody: true, CookieKind: "sealed", Sess: it.sess, Out: mkOutcome("ok", it.slug)})
+		it.h.sigStep(it.aw.secret, it.uri, it.sig, ts)
+		it.h.authStep(it.aw, e.f, authReq{Slug: it.slug, Method: "GET", URI: it.uri, Sig: it.sig, TS: ts, CookieKind: "sealed", Sess: it.sess, Out: mkOutcome("ok", it.slug)})
+		it.h.authStep(it.aw, e.f, authReq{Slug: it.slug, Method: "POST", URI: it.uri, Sig: it.sig, TS: ts, CookieKind: "junk", Sess: it.sess, Out: mkOutcome("ok", it.slug)})
+		out = append(out, it.h.emit())
+	}
 	return out
 }
 
@@ -1538,7 +1710,7 @@ func main() {
 	defer fa.Srv.Close()
 	authHost := strings.TrimPrefix(fa.Srv.URL, "http://")
 	e := &env{r: r, f: f}
-	e.auths = []*authWorld{buildAuth(f, port, authHost, proxySecret), buildAuth(f, port, authHost, wrongSecret)}
+	e.auths = []*authWorld{buildAuth(f, port, authHost, proxySecret, true), buildAuth(f, port, authHost, wrongSecret, false)}
 	dir := c.Scratch(a.Out)
 	for _, slug := range []string{"google", "okta"} {
 		for _, secure := range []bool{true, false} {
@@ -1546,6 +1718,7 @@ func main() {
 		}
 	}
 	var cases []c.Case
+	aging := e.agingStart()
 	for _, build := range e.corpus() {
 		cases = append(cases, e.runGuarded(r, build))
 	}
@@ -1567,5 +1740,6 @@ func main() {
 			cases = append(cases, e.runGuarded(r, func() c.Case { return e.sigs(i) }))
 		}
 	}
+	cases = append(cases, e.agingFinish(aging)...)
 	c.Must(c.WriteShards(a.Out, "Corr_C19", cases, a.Shard))
 }
